@@ -246,6 +246,9 @@ func (c *conn) send(ctx context.Context, msg *kmip.RequestMessage) error {
 //   - error: An error if the context is canceled, the connection is closed, or another issue occurs.
 func (c *conn) recv(ctx context.Context) (*kmip.ResponseMessage, error) {
 	if err := c.checkAvailable(ctx); err != nil {
+		// The request has already been sent: its response must never be handed over
+		// to a later caller, so the connection cannot be used anymore.
+		_ = c.terminate(io.ErrClosedPipe)
 		return nil, err
 	}
 	select {
